@@ -353,10 +353,12 @@ def scenarios(draw, prof=GENERAL):
             top['prelude'] = False
     top['entry'] = 'run' if plain else draw(weighted(
         (('run', 6), ('orchestrate', 1), ('co_run', 2), ('run-no-current-loop', 1),
-         ('co_run-called-early', 1))))
-    if top['entry'] == 'co_run-called-early' and chance(draw, 60) \
-            and len(top['members']) <= 130:
-        top['prelude'] = True       # the coroutine is obtained before the final wiring
+         ('co_run-called-early', 2))))
+    if top['entry'] == 'co_run-called-early':
+        if chance(draw, 80) and len(top['members']) <= 130:
+            top['prelude'] = True   # the coroutine is obtained before the final wiring
+        if chance(draw, 50):
+            top['cls'] = 'pure'     # (a Scheduler's own co_run() wraps the call)
     if not plain and chance(draw, 8):
         rescale(top, 40)            # minutes rather than seconds: 0.25 -> 10, 8 -> 320
     if chance(draw, prof.p_rerun):
